@@ -746,208 +746,195 @@ func runPager(c *Ctx) {
 			c.Check(ok && call.Call.StaticCallee() != nil && isLibFunc(call.Call.StaticCallee(), "golang.org/x/sys/unix", "FcntlFlock"), "lock: returns fcntl error", r.Pos(), "lock returns the fcntl result unchanged")
 		}
 	}
-	// RLock: ordered lock calls
-	var locks []*ssa.Call
-	for _, cs := range callsIn(rl) {
-		if call, ok := cs.(*ssa.Call); ok && cs.Common().StaticCallee() == lk {
-			locks = append(locks, call)
-		}
-	}
-	if len(locks) != 2 {
-		c.Undecided("RLock: lock calls", rl.Pos(), "expected two lock requests (pending byte, shared range) in (*filePager).RLock, found %d", len(locks))
-		return
-	}
-	if instrDominates(locks[1], locks[0]) {
-		locks[0], locks[1] = locks[1], locks[0]
-	}
-	if !instrDominates(locks[0], locks[1]) {
-		c.Undecided("RLock: lock order", rl.Pos(), "the two lock requests are not ordered by dominance")
-		return
-	}
-	type want struct {
-		name       string
-		start, len int64
-	}
-	wants := []want{{"pending", specPendingByte, 1}, {"shared", specSharedFirst, specSharedSize}}
-	var tests [2]*nilTest
-	var allocs [2]*ssa.Alloc
-	for i, call := range locks {
-		w := wants[i]
-		a := flockAlloc(call.Call.Args[1])
-		allocs[i] = a
-		if a == nil {
-			c.Undecided("RLock: "+w.name+" range", call.Pos(), "cannot resolve the Flock_t argument to an allocation")
-			continue
-		}
-		st, ok1 := fieldConstAt(a, "Start", call)
-		ln, ok2 := fieldConstAt(a, "Len", call)
-		ty, ok3 := fieldConstAt(a, "Type", call)
-		wh, ok4 := fieldConstAt(a, "Whence", call)
-		c.Check(ok1 && ok2 && st == w.start && ln == w.len, "RLock: "+w.name+" range", call.Pos(),
-			"lock request #%d covers [%#x,+%d); SQLite's %s range is [%#x,+%d)", i+1, st, ln, w.name, w.start, w.len)
-		c.Check(ok3 && ty == fRDLCK, "RLock: "+w.name+" type", call.Pos(), "lock type %d, expected F_RDLCK=%d (a reader takes read locks only)", ty, fRDLCK)
-		c.Check(ok4 && wh == 0, "RLock: "+w.name+" whence", call.Pos(), "whence %d, expected SEEK_SET", wh)
-		// error tested and returned
-		var test *nilTest
-		for _, r := range *call.Referrers() {
-			if bo, ok := r.(*ssa.BinOp); ok {
-				for _, rr := range *bo.Referrers() {
-					if t := nilTestOf(rr); t != nil && t.V == ssa.Value(call) {
-						test = t
+	runPagerPaths(c, rl, ru, lk, fRDLCK, fUNLCK)
+}
+
+// lockReq is one request made through (*filePager).lock on a path: the Flock_t's fields as they are when the call is
+// made (path-sensitive, through helpers, constructors and deferred functions), which struct it is, and the call.
+type lockReq struct {
+	typ, start, length, whence int64
+	haveRange                   bool
+	obj                         string // identity of the Flock_t
+	errTerm                     string
+	call                        ssa.Instruction
+}
+
+func pagerRequests(p *Program, fn, lk *ssa.Function) ([]*LPath, map[*LPath][]lockReq, *Termer, bool) {
+	t := &Termer{P: p}
+	base := callEvents(p)
+	paths, ok := EnumLits(fn.Blocks[0], 0, TabOpts{Termer: t, FieldCells: true, RunDefers: true, Limit: 100000,
+		EventOf: func(in ssa.Instruction, ps *pathState) (Event, bool) {
+			if call, isCall := in.(*ssa.Call); isCall && call.Call.StaticCallee() == lk && len(call.Call.Args) == 2 {
+				ptr := call.Call.Args[1]
+				ev := Event{Kind: "lockreq", Name: t.Term(call, ps)}
+				ev.Base = ps.fcKeyOf(ptr, "")
+				for _, f := range []string{"Type", "Start", "Len", "Whence"} {
+					if v, ok := ps.FieldConst(ptr, f); ok {
+						ev.Args = append(ev.Args, fmt.Sprintf("%s=%d", f, v))
 					}
 				}
+				return ev, true
 			}
-		}
-		tests[i] = test
-		if test == nil {
-			c.Fail("RLock: "+w.name+" error", call.Pos(), "the error of the %s lock request is not tested", w.name)
-			continue
-		}
-		why := errorEdgeReturnsNonNil(p, test.NonNil)
-		c.Check(why == "", "RLock: "+w.name+" error", call.Pos(), "failed %s lock: %s", w.name, orStr(why, "error returned"))
-		// no state change on the failing edge
-		q := cfgQuery{goal: func(in ssa.Instruction) bool {
-			s, ok := in.(*ssa.Store)
-			if !ok {
-				return false
-			}
-			return fieldName(s.Addr) == "readLock"
-		}}
-		hit := q.firstHit(test.NonNil, 0)
-		c.Check(hit == nil, "RLock: "+w.name+" failure leaves state", call.Pos(), "no store to readLock on the failed-%s edge", w.name)
-	}
-	if tests[0] != nil && tests[1] != nil && allocs[0] != nil {
-		// the second request happens only after the first succeeded
-		c.Check(tests[0].Nil == locks[1].Block() || tests[0].Nil.Dominates(locks[1].Block()), "RLock: pending before shared", locks[1].Pos(),
-			"the shared-range request is made only on the success edge of the pending-byte request")
-		// deferred release of the pending byte registered before the second request
-		var def *ssa.Defer
-		for _, cs := range callsIn(rl) {
-			d, ok := cs.(*ssa.Defer)
-			if !ok {
+			return base(in, ps)
+		}})
+	reqs := map[*LPath][]lockReq{}
+	for _, lp := range paths {
+		for _, e := range lp.Events {
+			if e.Kind != "lockreq" {
 				continue
 			}
-			// `defer f.unlock(pending)`: a helper that sets F_UNLCK on its parameter and forwards it to lock
-			if h := d.Common().StaticCallee(); h != nil && h != lk && inlinable != nil && inlinable(h) && len(h.Params) == len(d.Common().Args) {
-				for _, ics := range callsIn(h) {
-					if ics.Common().StaticCallee() != lk {
-						continue
-					}
-					prm, ok := resolveCell(ics.Common().Args[1]).(*ssa.Parameter)
-					if !ok {
-						continue
-					}
-					for k, hp := range h.Params {
-						if hp != prm || flockAlloc(d.Common().Args[k]) != allocs[0] {
-							continue
-						}
-						for _, in2 := range instrs(h) {
-							s2, ok := in2.(*ssa.Store)
-							if !ok || fieldName(s2.Addr) != "Type" || !instrDominates(s2, ics) {
-								continue
-							}
-							if resolveCell(s2.Addr.(*ssa.FieldAddr).X) == ssa.Value(prm) {
-								if v, ok := constInt(s2.Val); ok && v == fUNLCK {
-									def = d
-								}
-							}
-						}
-					}
+			r := lockReq{obj: e.Base, errTerm: e.Name, call: e.Instr, typ: -1, start: -1, length: -1, whence: -1}
+			for _, a := range e.Args {
+				var f string
+				var v int64
+				if i := strings.Index(a, "="); i > 0 {
+					f = a[:i]
+					fmt.Sscanf(a[i+1:], "%d", &v)
+				}
+				switch f {
+				case "Type":
+					r.typ = v
+				case "Start":
+					r.start = v
+				case "Len":
+					r.length = v
+				case "Whence":
+					r.whence = v
 				}
 			}
-			for _, callee := range p.Callees(d) {
-				for _, f := range withClosures(callee) {
-					if f != callee && f.Parent() != callee {
-						continue
-					}
-					for _, ics := range callsIn(f) {
-						if ics.Common().StaticCallee() != lk {
-							continue
-						}
-						a := flockAlloc(ics.Common().Args[1])
-						if a != allocs[0] {
-							continue
-						}
-						// Type set to F_UNLCK before the call, in the deferred function
-						okType := false
-						for _, in2 := range instrs(f) {
-							s2, ok := in2.(*ssa.Store)
-							if !ok || fieldName(s2.Addr) != "Type" {
-								continue
-							}
-							fa := s2.Addr.(*ssa.FieldAddr)
-							if flockAlloc(fa.X) != allocs[0] || !instrDominates(s2, ics) {
-								continue
-							}
-							if v, ok := constInt(s2.Val); ok && v == fUNLCK {
-								okType = true
-							}
-						}
-						if okType {
-							def = d
-						}
-					}
-				}
+			r.haveRange = r.start >= 0 && r.length >= 0
+			reqs[lp] = append(reqs[lp], r)
+		}
+	}
+	return paths, reqs, t, ok
+}
+
+func runPagerPaths(c *Ctx, rl, ru, lk *ssa.Function, fRDLCK, fUNLCK int64) {
+	p := c.P
+	paths, reqs, t, ok := pagerRequests(p, rl, lk)
+	if !ok {
+		c.Undecided("RLock: paths", rl.Pos(), "too many paths")
+		return
+	}
+	retIsNil := func(lp *LPath) bool {
+		v := lp.PS.Resolve(lp.Exit.Results[0])
+		return isNilConst(v) || lp.Holds(t.Term(v, lp.PS), token.EQL, "nil")
+	}
+	storesReadLock := func(lp *LPath) []Event {
+		var out []Event
+		for _, e := range lp.Events {
+			if e.Kind == "store" && e.Name == "readLock" {
+				out = append(out, e)
 			}
 		}
-		if def == nil {
-			c.Fail("RLock: pending released", rl.Pos(), "no deferred F_UNLCK of the pending-byte Flock_t: the pending byte stays locked and blocks every writer")
-		} else {
-			c.Check(instrDominates(def, locks[1]) && (tests[0].Nil == def.Block() || tests[0].Nil.Dominates(def.Block())), "RLock: pending released", def.Pos(),
-				"deferred unlock of the pending byte is registered after the pending lock succeeded and before the shared request, so it runs on every exit")
+		return out
+	}
+	nSucc := 0
+	for _, lp := range paths {
+		if lp.Exit == nil || len(lp.Exit.Results) != 1 {
+			continue
 		}
-		// readLock = shared struct only after success
-		n := 0
-		for _, in := range instrs(rl) {
-			s, ok := in.(*ssa.Store)
-			if !ok || fieldName(s.Addr) != "readLock" {
-				continue
+		rs := reqs[lp]
+		sig := pathSig(lp, 99)
+		if len(rs) == 0 {
+			// refused before asking the kernel (already locked): an error, no state change
+			c.Check(!retIsNil(lp) && len(storesReadLock(lp)) == 0, "RLock: refused without request:"+sig, lp.Exit.Pos(), "a path that makes no lock request returns an error and leaves readLock alone; path [%s]", pathDesc(lp))
+			continue
+		}
+		// request 1: the pending byte
+		r1 := rs[0]
+		c.Check(r1.haveRange && r1.start == specPendingByte && r1.length == 1, "RLock: pending range", r1.call.Pos(), "lock request #1 covers [%#x,+%d); SQLite's pending range is [%#x,+1)", r1.start, r1.length, int64(specPendingByte))
+		c.Check(r1.typ == fRDLCK, "RLock: pending type", r1.call.Pos(), "lock type %d, expected F_RDLCK=%d (a reader takes read locks only)", r1.typ, fRDLCK)
+		c.Check(r1.whence == 0, "RLock: pending whence", r1.call.Pos(), "whence %d, expected SEEK_SET", r1.whence)
+		if lp.Holds(r1.errTerm, token.NEQ, "nil") {
+			good := len(rs) == 1 && !retIsNil(lp) && strings.Contains(t.Term(lp.Exit.Results[0], lp.PS), strings.TrimSuffix(r1.errTerm, "#0")) && len(storesReadLock(lp)) == 0
+			c.Check(good, "RLock: pending error", r1.call.Pos(), "failed pending lock: the error is returned, nothing else is requested and readLock is untouched (requests %d, returns %s)", len(rs), t.Term(lp.Exit.Results[0], lp.PS))
+			continue
+		}
+		if !lp.Holds(r1.errTerm, token.EQL, "nil") {
+			c.Fail("RLock: pending error", r1.call.Pos(), "the error of the pending lock request is not tested before going on; path [%s]", pathDesc(lp))
+			continue
+		}
+		if len(rs) < 2 {
+			c.Fail("RLock: lock calls", r1.call.Pos(), "after the pending byte was locked no shared-range request follows; path [%s]", pathDesc(lp))
+			continue
+		}
+		// request 2: the shared range, only after the pending lock succeeded (established above)
+		r2 := rs[1]
+		c.Check(r2.haveRange && r2.start == specSharedFirst && r2.length == specSharedSize, "RLock: shared range", r2.call.Pos(), "lock request #2 covers [%#x,+%d); SQLite's shared range is [%#x,+%d)", r2.start, r2.length, int64(specSharedFirst), int64(specSharedSize))
+		c.Check(r2.typ == fRDLCK, "RLock: shared type", r2.call.Pos(), "lock type %d, expected F_RDLCK=%d", r2.typ, fRDLCK)
+		c.Check(r2.whence == 0, "RLock: shared whence", r2.call.Pos(), "whence %d, expected SEEK_SET", r2.whence)
+		c.Pass("RLock: pending before shared", r2.call.Pos(), "the shared-range request is made only after the pending-byte request succeeded")
+		// the pending byte is released on this path: a later F_UNLCK request on the very Flock_t of request 1
+		released := false
+		for _, r := range rs[2:] {
+			if r.obj == r1.obj && r.typ == fUNLCK {
+				released = true
+			} else {
+				c.Fail("RLock: lock calls", r.call.Pos(), "an unexpected further lock request (type %d on %s); path [%s]", r.typ, r.obj, pathDesc(lp))
 			}
-			n++
-			good := (tests[1].Nil == s.Block() || tests[1].Nil.Dominates(s.Block())) && flockAlloc(s.Val) == allocs[1]
-			c.Check(good, "RLock: readLock stored after success", s.Pos(), "readLock is set to the shared-range Flock_t only on the success edge of the shared request")
 		}
-		if n == 0 {
-			c.Fail("RLock: readLock stored after success", rl.Pos(), "RLock never records the shared lock: RUnlock cannot release it")
+		c.Check(released, "RLock: pending released", r1.call.Pos(), "%s", map[bool]string{true: "the pending byte is unlocked again (F_UNLCK on the same Flock_t) after the shared request, on this exit too", false: "no F_UNLCK of the pending-byte Flock_t on path [" + pathDesc(lp) + "]: the pending byte stays locked and blocks every writer"}[released])
+		st := storesReadLock(lp)
+		if lp.Holds(r2.errTerm, token.NEQ, "nil") {
+			c.Check(!retIsNil(lp) && len(st) == 0, "RLock: shared error", r2.call.Pos(), "failed shared lock: the error is returned and readLock is untouched (returns %s, %d store(s))", t.Term(lp.Exit.Results[0], lp.PS), len(st))
+			continue
 		}
+		if !lp.Holds(r2.errTerm, token.EQL, "nil") {
+			c.Fail("RLock: shared error", r2.call.Pos(), "the error of the shared lock request is not tested; path [%s]", pathDesc(lp))
+			continue
+		}
+		nSucc++
+		goodStore := len(st) == 1 && strings.HasPrefix(st[0].Base, "p:")
+		if goodStore {
+			// the value stored is the Flock_t of request 2
+			if s, ok := st[0].Instr.(*ssa.Store); ok {
+				goodStore = lp.PS.fcKeyOf(s.Val, "") == r2.obj
+			}
+		}
+		c.Check(goodStore, "RLock: readLock stored after success", r2.call.Pos(), "readLock is set to the shared-range Flock_t exactly on the path where the shared request succeeded")
+		c.Check(retIsNil(lp), "RLock: success returns nil", lp.Exit.Pos(), "both requests succeeded ⇒ nil")
+	}
+	if nSucc == 0 {
+		c.Fail("RLock: readLock stored after success", rl.Pos(), "RLock has no path on which both requests succeed and the shared lock is recorded")
 	}
 	// RUnlock
-	{
-		var call ssa.CallInstruction
-		var req lockRequest
-		for _, r := range lockRequestsIn(p, ru, lk) {
-			if call != nil {
-				c.Undecided("RUnlock: unlock call", ru.Pos(), "more than one lock call in RUnlock")
-			}
-			call, req = r.site, r
+	upaths, ureqs, ut, uok := pagerRequests(p, ru, lk)
+	if !uok {
+		c.Undecided("RUnlock: paths", ru.Pos(), "too many paths")
+		return
+	}
+	nUn := 0
+	for _, lp := range upaths {
+		if lp.Exit == nil || len(lp.Exit.Results) != 1 {
+			continue
 		}
-		if call == nil {
-			c.Fail("RUnlock: unlock call", ru.Pos(), "RUnlock issues no fcntl: the shared lock is never released")
-		} else {
-			arg := req.arg
-			c.Check(strings.HasSuffix(accessPath(arg), ".readLock"), "RUnlock: unlocks stored range", call.Pos(), "the Flock_t unlocked is the one stored by RLock (%s)", accessPath(arg))
-			okType := req.hasTyp && req.typ == fUNLCK
-			for _, in := range instrs(ru) {
-				s, ok := in.(*ssa.Store)
-				if !ok || fieldName(s.Addr) != "Type" || req.hasTyp {
-					continue
-				}
-				fa := s.Addr.(*ssa.FieldAddr)
-				if accessPath(fa.X) == accessPath(arg) && instrDominates(s, call) {
-					if v, ok := constInt(s.Val); ok && v == fUNLCK {
-						okType = true
-					}
-				}
-			}
-			c.Check(okType, "RUnlock: F_UNLCK", call.Pos(), "Type is set to F_UNLCK on the stored Flock_t before the fcntl")
-			cleared := false
-			for _, in := range instrs(ru) {
-				if s, ok := in.(*ssa.Store); ok && fieldName(s.Addr) == "readLock" && isNilConst(s.Val) && instrDominates(call, s) {
-					cleared = true
-				}
-			}
-			c.Check(cleared, "RUnlock: clears readLock", call.Pos(), "readLock is cleared after the unlock so that the next RLock is accepted")
+		rs := ureqs[lp]
+		v := lp.PS.Resolve(lp.Exit.Results[0])
+		isNil := isNilConst(v) || lp.Holds(ut.Term(v, lp.PS), token.EQL, "nil")
+		if len(rs) == 0 {
+			c.Check(!isNil, "RUnlock: not locked:"+pathSig(lp, 99), lp.Exit.Pos(), "without a recorded lock RUnlock reports an error and asks the kernel nothing")
+			continue
 		}
+		nUn++
+		r := rs[0]
+		c.Check(len(rs) == 1, "RUnlock: unlock call", r.call.Pos(), "exactly one request (found %d)", len(rs))
+		c.Check(strings.HasPrefix(r.obj, "P:") && strings.Contains(r.obj, ".readLock."), "RUnlock: unlocks stored range", r.call.Pos(), "the Flock_t unlocked is the one stored by RLock (%s)", r.obj)
+		c.Check(r.typ == fUNLCK, "RUnlock: F_UNLCK", r.call.Pos(), "Type is set to F_UNLCK on the stored Flock_t before the fcntl (type at the call: %d)", r.typ)
+		cleared := false
+		after := false
+		for _, e := range lp.Events {
+			if e.Kind == "lockreq" {
+				after = true
+			}
+			if after && e.Kind == "store" && e.Name == "readLock" && e.Val == "const:nil" {
+				cleared = true
+			}
+		}
+		c.Check(cleared, "RUnlock: clears readLock", r.call.Pos(), "readLock is cleared after the unlock so that the next RLock is accepted")
+	}
+	if nUn == 0 {
+		c.Fail("RUnlock: unlock call", ru.Pos(), "RUnlock issues no fcntl: the shared lock is never released")
 	}
 }
 
@@ -971,42 +958,99 @@ func runPager6(c *Ctx) {
 		c.Undecided("unix constants", token.NoPos, "cannot resolve F_WRLCK/F_UNLCK/F_GETLK")
 		return
 	}
-	var call *ssa.Call
-	for _, cs := range callsIn(fn) {
-		if callee := cs.Common().StaticCallee(); callee != nil && isLibFunc(callee, "golang.org/x/sys/unix", "FcntlFlock") {
-			call, _ = cs.(*ssa.Call)
+	// path-sensitive: the Flock_t's fields as they are when the probe is made (whether the struct is a literal or
+	// comes from a constructor helper), and the verdict read back from that same struct afterwards
+	t := &Termer{P: p}
+	base := callEvents(p)
+	type probe struct {
+		cmd, typ, start, length int64
+		obj, errTerm            string
+		call                    ssa.Instruction
+	}
+	paths, ok := EnumLits(fn.Blocks[0], 0, TabOpts{Termer: t, FieldCells: true, RunDefers: true,
+		EventOf: func(in ssa.Instruction, ps *pathState) (Event, bool) {
+			if call, isCall := in.(*ssa.Call); isCall {
+				if cal := call.Call.StaticCallee(); cal != nil && isLibFunc(cal, "golang.org/x/sys/unix", "FcntlFlock") && len(call.Call.Args) == 3 {
+					ev := Event{Kind: "probe", Name: t.Term(call, ps), Base: ps.fcKeyOf(call.Call.Args[2], "")}
+					if k, ok := evalInt(call.Call.Args[1], ps); ok {
+						ev.Args = append(ev.Args, fmt.Sprintf("cmd=%d", k))
+					}
+					for _, f := range []string{"Type", "Start", "Len"} {
+						if v, ok := ps.FieldConst(call.Call.Args[2], f); ok {
+							ev.Args = append(ev.Args, fmt.Sprintf("%s=%d", f, v))
+						}
+					}
+					return ev, true
+				}
+			}
+			return base(in, ps)
+		}})
+	if !ok {
+		c.Undecided("CheckReservedLock: paths", fn.Pos(), "too many paths")
+		return
+	}
+	n := 0
+	for _, lp := range paths {
+		if lp.Exit == nil || len(lp.Exit.Results) != 2 {
+			continue
 		}
-	}
-	if call == nil {
-		c.Fail("CheckReservedLock: probe", fn.Pos(), "no fcntl probe")
-		return
-	}
-	cmd, _ := constInt(call.Call.Args[1])
-	c.Check(cmd == fGETLK, "CheckReservedLock: F_GETLK", call.Pos(), "fcntl command %d, expected F_GETLK=%d (a probe must not take a lock)", cmd, fGETLK)
-	a := flockAlloc(call.Call.Args[2])
-	if a == nil {
-		c.Undecided("CheckReservedLock: range", call.Pos(), "cannot resolve the Flock_t")
-		return
-	}
-	st, _ := fieldConstAt(a, "Start", call)
-	ln, _ := fieldConstAt(a, "Len", call)
-	ty, _ := fieldConstAt(a, "Type", call)
-	c.Check(st == specReservedByte && ln == 1, "CheckReservedLock: range", call.Pos(), "probe covers [%#x,+%d); SQLite's RESERVED byte is [%#x,+1)", st, ln, specReservedByte)
-	c.Check(ty == fWRLCK, "CheckReservedLock: type", call.Pos(), "probe type %d, expected F_WRLCK=%d as in unixCheckReservedLock", ty, fWRLCK)
-	for _, r := range returnsOf(fn) {
-		// result 0: load(Type) != F_UNLCK, result 1: the fcntl error
+		var pr *probe
+		for _, e := range lp.Events {
+			if e.Kind != "probe" {
+				continue
+			}
+			q := probe{cmd: -1, typ: -1, start: -1, length: -1, obj: e.Base, errTerm: e.Name, call: e.Instr}
+			for _, a := range e.Args {
+				var v int64
+				i := strings.Index(a, "=")
+				fmt.Sscanf(a[i+1:], "%d", &v)
+				switch a[:i] {
+				case "cmd":
+					q.cmd = v
+				case "Type":
+					q.typ = v
+				case "Start":
+					q.start = v
+				case "Len":
+					q.length = v
+				}
+			}
+			if pr != nil {
+				c.Fail("CheckReservedLock: probe", e.Instr.Pos(), "more than one fcntl on a path")
+			}
+			pr = &q
+		}
+		if pr == nil {
+			c.Fail("CheckReservedLock: probe", lp.Exit.Pos(), "a path returns without an fcntl probe; path [%s]", pathDesc(lp))
+			continue
+		}
+		n++
+		c.Check(pr.cmd == fGETLK, "CheckReservedLock: F_GETLK", pr.call.Pos(), "fcntl command %d, expected F_GETLK=%d (a probe must not take a lock)", pr.cmd, fGETLK)
+		c.Check(pr.start == specReservedByte && pr.length == 1, "CheckReservedLock: range", pr.call.Pos(), "probe covers [%#x,+%d); SQLite's RESERVED byte is [%#x,+1)", pr.start, pr.length, int64(specReservedByte))
+		c.Check(pr.typ == fWRLCK, "CheckReservedLock: type", pr.call.Pos(), "probe type %d, expected F_WRLCK=%d as in unixCheckReservedLock", pr.typ, fWRLCK)
+		// the verdict: (Type of that struct, read after the probe) != F_UNLCK  — the bool result was split into its two
+		// outcomes by the engine, each with the literal on the loaded field
+		r0, isC := constBool(lp.PS.Resolve(lp.Exit.Results[0]))
 		okRes := false
-		if bo, ok := r.Results[0].(*ssa.BinOp); ok && bo.Op == token.NEQ {
-			if v, ok := constInt(bo.Y); ok && v == fUNLCK {
-				if ld, ok := bo.X.(*ssa.UnOp); ok && fieldName(ld.X) == "Type" && instrDominates(call, ld) {
-					if fa, ok := ld.X.(*ssa.FieldAddr); ok && fa.X == ssa.Value(a) {
-						okRes = true
+		for _, l := range lp.Lits {
+			bo, isBO := l.Cond.(*ssa.BinOp)
+			if !isBO || !l.IsInt || l.N != fUNLCK {
+				continue
+			}
+			for _, side := range []ssa.Value{bo.X, bo.Y} {
+				if ld, isLd := side.(*ssa.UnOp); isLd && ld.Op == token.MUL {
+					if fa, isFA := ld.X.(*ssa.FieldAddr); isFA && fieldName(fa) == "Type" && lp.PS.fcKeyOf(fa.X, "") == pr.obj {
+						isUnlck := (l.Op == token.EQL && l.Val) || (l.Op == token.NEQ && !l.Val)
+						okRes = isC && r0 == !isUnlck
 					}
 				}
 			}
 		}
-		c.Check(okRes, "CheckReservedLock: verdict", r.Pos(), "reports `Type != F_UNLCK` read back from the probed struct after the fcntl")
-		c.Check(r.Results[1] == ssa.Value(call), "CheckReservedLock: error", r.Pos(), "the fcntl error is returned")
+		c.Check(okRes, "CheckReservedLock: verdict", lp.Exit.Pos(), "reports `Type != F_UNLCK` read back from the probed struct after the fcntl")
+		c.Check(strings.TrimSuffix(t.Term(lp.Exit.Results[1], lp.PS), "#0") == strings.TrimSuffix(pr.errTerm, "#0"), "CheckReservedLock: error", lp.Exit.Pos(), "the fcntl error is returned")
+	}
+	if n == 0 {
+		c.Fail("CheckReservedLock: probe", fn.Pos(), "no fcntl probe")
 	}
 }
 
